@@ -160,8 +160,13 @@ def run_pool(desc):
     if is_reg:
         y_ref = c.y.copy()
         y_alt = np.where(np.isnan(c.y), REG_SENTINELS["num"], c.y)
-        runs = [("nan", lambda: call(y_ref, np.nan, [0, 1, 2])), ("num", lambda: call(y_alt, REG_SENTINELS["num"], [0, 1, 2]))]
         enc = "num"
+        if (desc["seed"] >> 4) % 3 == 0:
+            # integer-valued targets stored in an integer array with a reserved number as sentinel
+            y_ref = np.round(y_ref)
+            y_alt = np.where(np.isnan(y_ref), REG_SENTINELS["num"], y_ref).astype(np.int64)
+            enc = "num_int"
+        runs = [("nan", lambda: call(y_ref, np.nan, [0, 1, 2])), (enc, lambda: call(y_alt, REG_SENTINELS["num"], [0, 1, 2]))]
     else:
         y_ref = np.where(y_id < 0, np.nan, y_id.astype(float))
         y_alt, ml, classes = encode(y_id, desc["enc"])
